@@ -324,14 +324,19 @@ impl<'a> Ctx<'a> {
             }
         }
         // peel map / filter stages
-        let mut stages: Vec<(&str, &syn::ExprClosure, &syn::ExprMethodCall)> = vec![];
+        let mut stages: Vec<(&str, Option<&syn::ExprClosure>, &syn::ExprMethodCall)> = vec![];
         let mut base: &syn::Expr = seg;
         loop {
             match base {
+                syn::Expr::MethodCall(m) if m.method == "copied" && m.args.is_empty() => {
+                    stages.push(("copied", None, m));
+                    base = &m.receiver;
+                    continue;
+                }
                 syn::Expr::MethodCall(m) if (m.method == "map" || m.method == "filter") && m.args.len() == 1 => {
                     if let syn::Expr::Closure(cl) = &m.args[0] {
                         if cl.inputs.len() == 1 {
-                            stages.push((if m.method == "map" { "map" } else { "filter" }, cl, m));
+                            stages.push((if m.method == "map" { "map" } else { "filter" }, Some(cl), m));
                             base = &m.receiver;
                             continue;
                         }
@@ -343,6 +348,7 @@ impl<'a> Ctx<'a> {
         }
         stages.reverse();
         for (_, cl, _) in &stages {
+            let cl = match cl { Some(c) => c, None => continue };
             struct HasRet(bool);
             impl<'x> syn::visit::Visit<'x> for HasRet {
                 fn visit_expr_return(&mut self, _: &'x syn::ExprReturn) { self.0 = true; }
@@ -352,16 +358,56 @@ impl<'a> Ctx<'a> {
             h.visit_expr(&cl.body);
             if h.0 { self.errors.push("E14b: `return` / `?` inside a fused closure".into()); }
         }
-        let (o, ls, le) = self.gen_loop("for-collect-segment", seg.span());
+        // E14c: the root receiver of the base is itself a collected pipeline (`X.collect::<T>().difference(..)`): bind it first,
+        // so that the temporary outlives the loop: `let vx_tmpK = <block>; for .. in vx_tmpK.difference(..)`
+        let mut root: &syn::Expr = base;
+        loop {
+            match root {
+                syn::Expr::MethodCall(m) if !(m.method == "collect" && m.args.is_empty()) => { root = &m.receiver; }
+                _ => break,
+            }
+        }
+        let hoist_root = !std::ptr::eq(root, base) && matches!(root, syn::Expr::MethodCall(m) if m.method == "collect" && m.args.is_empty());
         let (bs_, be_) = self.src.range(base.span());
+        let mut tmp_id = 0;
+        if hoist_root {
+            self.tmp_n += 1;
+            tmp_id = self.tmp_n;
+            self.add(bs_, bs_, format!("let vx_tmp{tmp_id} = "), "E14c nested collect bound before the loop");
+            self.visit_expr(root); // its loops are numbered before this segment's own loop (textual order)
+        }
+        let (o, ls, le) = self.gen_loop("for-collect-segment", seg.span());
         let var = format!("vx_x{o}");
-        self.add(bs_, bs_, format!("for {var} in it{o}: "), "E14 collect -> accumulator loops");
-        self.visit_expr(base);
+        if hoist_root {
+            let (_, re_) = self.src.range(root.span());
+            self.add(re_, re_, format!("; for {var} in it{o}: vx_tmp{tmp_id}"), "E14c nested collect bound before the loop");
+            // visit the rest of the base chain (arguments of the method calls above the root)
+            let mut r: &syn::Expr = base;
+            while !std::ptr::eq(r, root) {
+                if let syn::Expr::MethodCall(m) = r { for a in &m.args { self.visit_expr(a); } r = &m.receiver; } else { break; }
+            }
+        } else {
+            self.add(bs_, bs_, format!("for {var} in it{o}: "), "E14 collect -> accumulator loops");
+            self.visit_expr(base);
+        }
         let mut cur = var.clone();
         let mut prev_end = be_;
         let mut closers = String::new();
         let mut pending = format!(" /*@LOOP{o}@*/ {{ {ls} ");
         for (k, (kind, cl, _m)) in stages.iter().enumerate() {
+            let cl = match cl {
+                Some(c) => c,
+                None => {
+                    // `.copied()`: the item is a reference to a Copy value
+                    let nv = format!("vx_s{o}_{}", k + 1);
+                    let (_, me) = self.src.range(_m.span());
+                    self.add(prev_end, me, format!("{pending}let {nv} = *{cur}"), "E14b fused copied stage");
+                    pending = "; ".to_string();
+                    cur = nv;
+                    prev_end = me;
+                    continue;
+                }
+            };
             self.closures += 1;
             let pat = self.src.slice(cl.inputs[0].span()).to_string();
             let (cbs, cbe) = self.src.range(cl.body.span());
